@@ -91,6 +91,23 @@ def check(ctx, rep):
         oth = [l for k, l in tests if k == 'other']
         rep.ob('promotion.double-first', 'values.%s tests for Double operands before narrower types' % name,
                bool(dbl) and (not oth or min(dbl) < min(oth)), repr(tests), ctx.where(fn))
+    # match_types (shared with C06, whose module owns the analysis): Double before Single before Integer
+    from . import c06
+    sub = type(rep)('C06')
+    c06.check(ctx, sub)
+    for f in sub.findings:
+        if f.rule.startswith('match_types'):
+            rep.ob('promotion.match-types', f.construct, False, f.detail or 'mixed Single/Double operands are narrowed to Single', f.where)
+    rep.ob('promotion.match-types', 'match_types converts both operands to the widest type present (%d obligations of C06)' % sum(
+        v[0] for r, v in sub.by_rule.items() if r.startswith('match_types')), not sub.errors, '; '.join(sub.errors))
+    # + and - only ever widen an operand before match_types: Integer -> Single via to_float(), which leaves floats alone
+    for name in ('add', 'sub'):
+        fn = ctx.fn('%s:%s' % (V, name))
+        narrowing = [c for c in own_nodes(fn) if isinstance(c, ast.Call) and isinstance(c.func, ast.Attribute) and c.func.attr in ('to_single', 'to_integer')
+                     and norm(c.func.value).split('.')[0] in ('left', 'right')]
+        narrowing += [c for c in own_nodes(fn) if isinstance(c, ast.Call) and norm(c.func) in ('to_single', 'to_integer') and c.args and norm(c.args[0]) in ('left', 'right')]
+        rep.ob('promotion.add-sub-never-narrow', 'values.%s converts its operands only with to_float() / match_types' % name, not narrowing,
+               '%s rounds a Double operand to 24 bits before the sum is taken' % [short(c, 30) for c in narrowing], ctx.where(fn))
     # (iii) sign algebra
     ineg = ctx.fn(N + ':Float.ineg')
     iabs = ctx.fn(N + ':Float.iabs')
@@ -172,6 +189,8 @@ def variants(ctx):
         Va('ineg-sets-instead-of-flips', 'break', N,
            in_fn('Float.ineg', lambda fn: mu.replace_expr(fn, mu.text_is('bytearray(self._buffer)[-2] ^ 128'), 'bytearray(self._buffer)[-2] | 128')),
            expect='sign.neg-is-involution'),
+        Va('add-narrows-left-operand', 'break', V,
+           in_fn('add', lambda fn: mu.replace_expr(fn, mu.text_is('left.to_float()'), 'left.to_single()')), expect='promotion.add-sub'),
         Va('mul-single-test-first', 'break', V, in_fn('mul', _swap_double_single), expect='promotion'),
         Va('div-double-test-left-only', 'break', V,
            in_fn('div', lambda fn: mu.replace_expr(fn, mu.text_is('isinstance(left, numbers.Double) or isinstance(right, numbers.Double)'), 'isinstance(left, numbers.Double)')), expect='promotion.both-operands'),
